@@ -745,6 +745,17 @@ class PathResult(object):
         self.env = env
 
 
+def _from_rtamt(exc):
+    """does the traceback pass through a frame of the rtamt package (the code under test)?"""
+    tb = exc.__traceback__
+    while tb is not None:
+        fn = tb.tb_frame.f_code.co_filename.replace('\\', '/')
+        if '/rtamt/' in fn and '/vf/' not in fn:
+            return True
+        tb = tb.tb_next
+    return False
+
+
 def explore(body, max_paths=20000, on_path=None):
     """Run body(env) on every feasible path.  on_path(PathResult) is called per path
     (while its solver is alive); returns summary dict."""
@@ -770,6 +781,9 @@ def explore(body, max_paths=20000, on_path=None):
             except Inconclusive:
                 raise
             except Exception as e:
+                if not _from_rtamt(e):
+                    # raised by the harness/oracle itself, not by the code under test: never a verdict about rtamt
+                    raise Inconclusive('harness exception %s: %s' % (type(e).__name__, e))
                 pr = PathResult('raised', e, ctx, env)
             if ctx.pos < len(prefix):
                 raise Inconclusive('harness not deterministic under re-execution')
@@ -806,6 +820,8 @@ def run_concrete(body, values, use_fractions=False):
         except PathAbort as e:
             return 'abort', e.reason, env
         except Exception as e:
+            if not _from_rtamt(e):
+                return 'abort', 'harness exception %s: %s' % (type(e).__name__, e), env
             return 'raised', e, env
     finally:
         if was:
